@@ -3,7 +3,10 @@ import opscheck
 import solvedrive
 
 CLAUSES = ["C04_Solves", "C04_SameObject", "C04_SameAsMatrixPDE", "C04_ExternalSolver", "C04_Variants",
-           "C04_Linear", "C04_Assembly", "C03_SolvedRobin"]
+           "C04_Linear", "C04_Assembly", "C03_SolvedRobin",
+           # the variable's boundary equations are those of the BCs as they are AT THE TIME OF THE SOLVE: a second
+           # solve after the boundary data were re-assigned (property / slice assignment) returns the new target
+           "C12_History"]
 
 
 def run(tier, seed):
